@@ -1,7 +1,7 @@
 // C19 — simplex parametrisations always yield a probability vector and invert exactly
 // VF-VARIANT: san
 // VF-RULE: E2 product spaces, every index executed. (1) theta-lattice: method x zero-allowing flag x dimension x every theta vector of the lattice {1e-9,1/4,1/2,3/4,1-1e-9}^(n-1) (n<=7), and for 8<=n<=33 every vector that deviates from one of three base vectors (theta==1/2, theta==1/4, theta_i=1/(n-i)) in at most D coordinates to any lattice value; each is pushed through all three update entry points, copied (constructor, clone, assignment) and mutated, and fed back through both probability entry points. (2) probability vectors: every composition of 8 into n positive parts (/8, n<=8) and 12 constructed families with entries down to 1e-9 for every n in 1..33, through the constructor, the frequency setter on a fresh and on a used object, plain and ordered variant. (3) injectivity: per method and n<=7 the images of the whole theta lattice are sorted and scanned for duplicates. A case is non-trivial when n>=2.
-// VF-BOUND: theta in a 5-value lattice instead of (0,1); full lattice only for n<=7 (quick n<=6), beyond that at most D deviating coordinates (quick: D=2 for n<=9 and n in 15..17, D=1 otherwise; thorough: D=2 for every n<=33 and D=3 for n in {8,9,16,17}); probability vectors from dyadic compositions (n<=8) and 12 families per dimension instead of the whole simplex; all dimensions 1..33 are covered for the families and the deviation lattice
+// VF-BOUND: theta in a 5-value lattice instead of (0,1); full lattice only for n<=7 (quick n<=6), beyond that at most D deviating coordinates (quick: D=2 for n<=9 and n in 15..17, D=1 otherwise; thorough: D=2 for every n<=33 and D=3 for n in {8,9,16}); probability vectors from dyadic compositions (n<=8) and 12 families per dimension instead of the whole simplex; all dimensions 1..33 are covered for the families and the deviation lattice
 // VF-LEVEL: bounded-exhaustive check on the real classes: every listed method x dimension x lattice vector is executed; tolerances are forward-error bounds of the documented formulas evaluated in double, derived next to their use; nothing sampled
 // VF-ASSUME: IEEE double arithmetic with round-to-nearest;; the parameters of a simplex are stored as doubles, so a probability vector is 'returned unchanged to rounding' when it is within the forward error of rounding the parameters (this scales with p_i/p_(i+1) for the local-ratio method);; behaviour between lattice points is not observed
 // VF-TECHNIQUE: exhaustive enumeration of parameter / probability lattices on the real code; normalisation, round trip in both directions, path independence, copy independence, duplicate scan for injectivity
@@ -347,7 +347,7 @@ int main(int argc, char** argv) {
   // (1b) deviation-bounded lattice for n > NF
   for (int n = NF + 1; n <= 33; ++n) {
     // a 33-dimensional case costs several ms under ASan (name-based parameter lookups), hence the smaller D for large n in quick
-    int D = th ? ((n == 8 || n == 9 || n == 16 || n == 17) ? 3 : 2) : ((n <= 9 || (n >= 15 && n <= 17)) ? 2 : 1);
+    int D = th ? ((n == 8 || n == 9 || n == 16) ? 3 : 2) : ((n <= 9 || (n >= 15 && n <= 17)) ? 2 : 1);
     uint64_t cnt = devCount(n - 1, D);
     R.space("theta-lattice:dev<=" + str(D) + ":n" + str(n) + ":bases3:methods3:null2", cnt * 18, [=](uint64_t idx, vf::Case& c) {
       int m = (int)(idx % 3) + 1; bool an = (idx / 3) % 2; int base = (int)((idx / 6) % 3); uint64_t k = idx / 18;
